@@ -68,6 +68,12 @@ def _cases(w):
     cases.append(('celleval(f, var, var)', lambda: cel.celleval(g2, a, b), (a, b), g2, ('a', 'b'), 0))
     cases.append(('funceval(f, var, var, var)', lambda: cel.funceval(g3, a, b, a), (a, b), (lambda x, y: g3(x, y, x)), ('a', 'b'), 0))
     cases.append(('funceval(identity, var)', lambda: cel.funceval((lambda x: x), a), (a,), (lambda x: x), ('a',), 0))
+    for n in range(4, 9):
+        # arities 4..8: every argument position must reach the function (weights make the positions distinguishable)
+        ops = [a, b] * 4
+        fn_n = (lambda *xs: sum((j + 1) * x for j, x in enumerate(xs)))
+        cases.append(('funceval(f, %d vars)' % n, (lambda n=n, fn_n=fn_n, ops=ops: cel.funceval(fn_n, *ops[:n])), (a, b),
+                      (lambda x, y, n=n, fn_n=fn_n: fn_n(*([x, y] * 4)[:n])), ('a', 'b'), 0))
     # a left-most operand with a PERIODIC axis (the last one): the result must carry the periodic flags as well
     pc, _ = make_cellvar(w, 'vc', 'n' * (w.nd - 1) + 'r')
     pc.apply_BCs()
@@ -165,6 +171,12 @@ def _face_cases(w):
     g2 = (lambda x, y: x * y - y)
     cases.append(('faceeval(f, face, face)', lambda: fac.faceeval(g2, a, b), g2, ('a', 'b')))
     cases.append(('faceeval(identity, face)', lambda: fac.faceeval((lambda x: x), a), (lambda x: x), ('a',)))
+    cases.append(('faceeval(f, face)', lambda: fac.faceeval((lambda x: 2.0 * x + 1.0), a), (lambda x: 2.0 * x + 1.0), ('a',)))
+    for n in range(3, 9):
+        ops = [a, b] * 4
+        fn_n = (lambda *xs: sum((j + 1) * x for j, x in enumerate(xs)))
+        cases.append(('faceeval(f, %d faces)' % n, (lambda n=n, fn_n=fn_n, ops=ops: fac.faceeval(fn_n, *ops[:n])),
+                      (lambda x, y, n=n, fn_n=fn_n: fn_n(*([x, y] * 4)[:n])), ('a', 'b')))
     return dict(a=a, b=b), cases
 
 
